@@ -461,7 +461,9 @@ func ttyGenOp(consGen func(*rapid.T) ttyCons, manyStates bool) func(*rapid.T) tt
 	return func(t *rapid.T) ttyOp {
 		k := rapid.IntRange(0, 99).Draw(t, "opkind")
 		switch {
-		case k < 16: // ~50%
+		case k == 0: // ~10%: dropped by ttyGenOps; lets the shrinker delete any op
+			return ttyOp{K: "nop"}
+		case k < 16: // ~40%
 			return ttyOp{K: "b", B: []int{ttyGenByte(t)}}
 		case k < 58: // ~30%
 			return ttyOp{K: "w", B: ttyGenChunk(t)}
@@ -476,10 +478,19 @@ func ttyGenOp(consGen func(*rapid.T) ttyCons, manyStates bool) func(*rapid.T) tt
 }
 
 // ttyGenOps draws a history of at most 400 ops. rapid's slice length is
-// geometric around min+max(min,5), so the minimum length is drawn first.
+// geometric around min+max(min,5), so a minimum length is drawn first; "nop"
+// elements are dropped, so that the shrinker can remove any op although the raw
+// slice has a minimum length.
 func ttyGenOps(t *rapid.T, gen func(*rapid.T) ttyOp) []ttyOp {
 	minLen := []int{0, 0, 12, 12, 40, 40, 40, 100, 100, 200}[rapid.IntRange(0, 9).Draw(t, "lenclass")]
-	return rapid.SliceOfN(rapid.Custom(gen), minLen, 400).Draw(t, "ops")
+	raw := rapid.SliceOfN(rapid.Custom(gen), minLen, 400).Draw(t, "ops")
+	ops := make([]ttyOp, 0, len(raw))
+	for _, op := range raw {
+		if op.K != "nop" {
+			ops = append(ops, op)
+		}
+	}
+	return ops
 }
 
 // ttyGenDim draws a grid dimension in 1..max: the edge value 1 over-represented,
